@@ -24,6 +24,13 @@ fn gen_priority() -> Priority {
     })
 }
 
+/// Verification hook: restart this thread's priority stream, so that a generated test case is a pure
+/// function of its input whatever ran before it in the same thread.
+#[cfg(feature = "verif")]
+pub fn verif_reseed_priorities(seed: u64) {
+    RNG.with(|cell| cell.set(Rng::from_seed(seed)));
+}
+
 pub struct TreapNode<T> {
     pub item: T,
     pub priority: Priority,
